@@ -76,6 +76,8 @@ type vnet struct {
 	backHome string // an honest node sent the item back to its origin
 	lostEntry string // a relay dropped a verified entry from the list it forwards
 	fetches   []fetchReq // parent-fetch requests the nodes sent to their peers
+	serveFetch bool      // peers answer parent-fetch requests with their real GetVertex handler
+	sendsMissing int     // how often the sends the harness expected (from what it can verify itself) never came
 	silent bool                      // warm-up item: no trace lines
 	old    map[int][]*pb.Gossiper    // genuine entries honest nodes signed for the warm-up item, by named node
 }
@@ -109,7 +111,11 @@ func (s *netStub) GetVertex(ctx context.Context, in *pb.SignedHash, _ ...grpc.Ca
 	// the adversary)
 	s.net.mux.Lock()
 	s.net.fetches = append(s.net.fetches, fetchReq{src: s.src, dst: s.dst, req: proto.Clone(in).(*pb.SignedHash)})
+	serve := s.net.serveFetch
 	s.net.mux.Unlock()
+	if serve && s.net.honest[s.dst] {
+		return s.net.gsp[s.dst].Server().GetVertex(ctx, in) // the peer's real handler answers
+	}
 	return nil, fmt.Errorf("not served")
 }
 
@@ -317,7 +323,11 @@ func (v *vnet) expectSends(m qmsg) int {
 
 // waitFresh blocks until the origin loop (a goroutine reading the pipe) has handed at least n messages to the stubs.
 func (v *vnet) waitFresh(n int) {
-	for i := 0; i < 300000; i++ { // up to 30 s: only ever reached when sends are really missing or the machine is badly overloaded
+	limit := 60000 // up to 6 s: only ever reached when sends are really missing or the machine is badly overloaded
+	if sendsMissingAnywhere.Load() > 0 {
+		limit = 1000 // expected sends already failed to appear once in this run: do not wait long again
+	}
+	for i := 0; i < limit; i++ {
 		v.mux.Lock()
 		k := len(v.fresh)
 		v.mux.Unlock()
@@ -326,7 +336,11 @@ func (v *vnet) waitFresh(n int) {
 		}
 		time.Sleep(100 * time.Microsecond)
 	}
+	v.sendsMissing++
+	sendsMissingAnywhere.Add(1)
 }
+
+var sendsMissingAnywhere atomic.Int64
 
 func (v *vnet) deliver(k int) (string, int) {
 	m := v.queue[k]
@@ -747,6 +761,14 @@ func init() {
 			if v.lostEntry != "" {
 				c.Violate("C11", "relay-drops-verified-gossiper-entries", v.lostEntry, info)
 			}
+			if v.sendsMissing > 0 {
+				// the harness verifies every gossiper entry itself (address || item hash, signed by that address): a
+				// node that received the first authentic copy without being listed forwards to every peer that is
+				// not verifiably listed. Forwards that never come mean the nodes judge the lists differently.
+				for _, pid := range []string{"C11", "C12"} {
+					c.Violate(pid, "expected-forwards-never-sent", fmt.Sprintf("%d deliveries were not followed by the forwards that the verifiable gossiper entries of the delivered copy call for (the nodes count entries as verified, or as signed for this item, that are not)", v.sendsMissing), info)
+				}
+			}
 			if len(v.queue) > 0 {
 				c.Violate("C11", "gossip-does-not-terminate", fmt.Sprintf("%d messages still in flight after 400 deliveries", len(v.queue)), info)
 			}
@@ -1102,6 +1124,101 @@ func init() {
 					c.Violate(pid, key, fmt.Sprintf("a contract was gossiped as awaiting transaction, then sealed at node 0 and the vertex gossiped (replayed transaction-gossip entries: %v): node %d does not hold the vertex", replay, i),
 						map[string]interface{}{"section": "gossip", "scenario": "trx-then-vertex", "replay": replay})
 					break
+				}
+			}
+			v.close()
+		}
+		// ---- one contract proposed at TWO nodes (a client retry / fail-over): node B (1) already holds it as
+		// awaiting when the gossip from node A (0) arrives, twice (directly and relayed by C (2)). B forwards it to
+		// D (3) once per duplicate-suppression window, not once per copy.
+		{
+			v := newVnet(c, 4, [][]int{{1, 2}, {0, 2, 3}, {0, 1}, {1}}, []bool{true, true, true, true}, true)
+			v.silent = true
+			rich, other := v.w.wallets[0], v.w.wallets[1]
+			ctx, cancel := context.WithCancel(context.Background())
+			v.gsp[0].RunOrigin(ctx)
+			ct, _ := transaction.New("deal", spice.Melange{}, []byte("twice"), other.Address(), recSigner{rich})
+			cb := ct
+			v.caches[1].SaveAwaitedTransaction(&cb) // B's notary accepted the same proposal
+			v.caches[0].SaveAwaitedTransaction(&ct)
+			v.item = ct.Hash
+			pt, _ := transformers.TrxToProtoTrx(ct)
+			v.pipes[0].SendTrx(pt)
+			v.waitFresh(2)
+			v.settle()
+			cancel()
+			toD := 0
+			for steps := 0; len(v.queue) > 0 && steps < 40; steps++ {
+				if v.queue[0].src == 1 && v.queue[0].dst == 3 {
+					toD++
+				}
+				v.deliver(0)
+			}
+			c.Rep.Evals++
+			c.Count("double-origin")
+			c.Distinct(fmt.Sprintf("double-origin/toD=%d", toD))
+			if toD > 1 {
+				c.Violate("C11", "awaiting-transaction-forwarded-more-than-once", fmt.Sprintf("node B already held the contract as awaiting; the gossip reached it directly and through C: B forwarded it to D %d times", toD),
+					map[string]interface{}{"section": "gossip", "scenario": "double-origin"})
+			}
+			if !v.hasItem(3) {
+				c.Violate("C11", "awaiting-transaction-not-delivered-behind-second-origin", "node D (reachable only through B, which already held the contract) never received it",
+					map[string]interface{}{"section": "gossip", "scenario": "double-origin"})
+			}
+			v.close()
+		}
+		// ---- a vertex with two DIFFERENT parents reaches a node that has neither: the node fetches both from its
+		// peers (real GetVertex handlers), admits them, and the parked child is admitted by the next retries
+		{
+			v := newVnet(c, 3, [][]int{{1, 2}, {0, 2}, {0, 1}}, []bool{true, true, true}, false)
+			v.silent = true
+			v.serveFetch = true
+			rich, other := v.w.wallets[0], v.w.wallets[1]
+			mk := func(n int, cur uint64) (accountant.Vertex, error) {
+				t, _ := transaction.New("pay", spice.Melange{Currency: cur}, nil, other.Address(), recSigner{rich})
+				return v.nodes[n].ab.CreateLeaf(context.Background(), &t)
+			}
+			l, e1 := mk(0, 1)
+			r, e2 := mk(1, 2)
+			if e1 == nil && e2 == nil {
+				lc, rc := l, r
+				v.nodes[1].ab.AddLeaf(context.Background(), &lc)
+				v.nodes[0].ab.AddLeaf(context.Background(), &rc)
+				child, e3 := mk(0, 3)
+				if e3 == nil && child.LeftParentHash != child.RightParentHash {
+					cc := child
+					v.nodes[1].ab.AddLeaf(context.Background(), &cc)
+					ctx, cancel := context.WithCancel(context.Background())
+					v.gsp[0].RunOrigin(ctx)
+					v.item = child.Hash
+					v.pipes[0].SendVrx(&child)
+					v.waitFresh(2)
+					v.settle()
+					cancel()
+					for _, m := range v.queue {
+						if m.dst == 2 && m.vrx != nil {
+							v.gsp[2].Server().GossipVrx(context.Background(), m.vrx)
+						}
+					}
+					v.queue = nil
+					// the fetches run in goroutines: give them time, then retry the parked child
+					deadline := time.Now().Add(5 * time.Second)
+					for time.Now().Before(deadline) && !v.hasItem(2) {
+						time.Sleep(20 * time.Millisecond)
+						v.nodes[2].ab.VerifRetryParked(context.Background())
+					}
+					c.Rep.Evals++
+					c.Count("merge-child-first")
+					c.Distinct("merge-child-first")
+					if !v.hasItem(2) {
+						sn := v.nodes[2].ab.VerifSnapshot()
+						have := map[[32]byte]bool{}
+						for _, x := range sn.Vertices {
+							have[x.Hash] = true
+						}
+						c.Violate("C13", "merge-vertex-before-both-parents-never-admitted", fmt.Sprintf("a vertex with two different parents reached a node that had neither, its peers serve both: after 5 s the node holds left parent: %v, right parent: %v, the vertex: false", have[child.LeftParentHash], have[child.RightParentHash]),
+							map[string]interface{}{"section": "gossip", "scenario": "merge-child-first"})
+					}
 				}
 			}
 			v.close()
